@@ -661,6 +661,21 @@ func (e *Eval) evalBlocks(fr *Frame, order []*ssa.BasicBlock, entry *ssa.BasicBl
 			cur = e.c.Define(fr.prefix+fmt.Sprintf("r%d", b.Index), "Bool", or(fconds...))
 			s = e.c.Merge(fconds, sts)
 		}
+		// a block entered from a loop header by the loop's exit edge sees the
+		// header's values of the loop variables (phis carry no DebugRef, so
+		// the source names would otherwise still denote the body's values)
+		for _, p := range b.Preds {
+			if ls, ok := fr.loopSt[p]; ok && ls.li != nil && !ls.li.blocks[b] {
+				for _, phi := range ls.phis {
+					if v, ok := fr.vals[phi]; ok && phi.Comment != "" && v.T != "" {
+						if fr.names == nil {
+							fr.names = map[string]namedVal{}
+						}
+						fr.names[phi.Comment] = namedVal{v, phi.Type()}
+					}
+				}
+			}
+		}
 		li := loops[b]
 		instrs := b.Instrs
 		k := 0
@@ -740,6 +755,7 @@ func (e *Eval) evalBlocks(fr *Frame, order []*ssa.BasicBlock, entry *ssa.BasicBl
 }
 
 type snapshot struct {
+	names map[string]namedVal
 	body, obls, allocs, defers, normals, panics, unwound, unsup, calls int
 	site                                                                           map[string]int
 	vals                                                                           map[ssa.Value]Val
@@ -754,6 +770,12 @@ func (e *Eval) snap(fr *Frame) *snapshot {
 	}
 	for k, v := range fr.vals {
 		s.vals[k] = v
+	}
+	// source names of registers (DebugRef) seen so far: a dry run must not
+	// leave names bound to values that exist only in the discarded run
+	s.names = map[string]namedVal{}
+	for k, v := range fr.names {
+		s.names[k] = v
 	}
 	return s
 }
@@ -770,6 +792,7 @@ func (e *Eval) restore(fr *Frame, s *snapshot) {
 	e.callLog = e.callLog[:s.calls]
 	e.siteCnt = s.site
 	fr.vals = s.vals
+	fr.names = s.names
 }
 
 // loopHeader cuts the loop at its header: invariants are checked on entry,
@@ -877,6 +900,18 @@ func (e *Eval) loopEnv(fr *Frame, ls *loopState, s *State, from *ssa.BasicBlock,
 			env.bind(phi.Comment, v, phi.Type())
 		}
 		env.bind(phi.Name(), v, phi.Type())
+	}
+	// loop variables of the enclosing loops, at their current values
+	for _, other := range fr.loopSt {
+		// enclosing loops only: their body contains this loop's header
+		if other == ls || other.li == nil || ls.li == nil || !other.li.blocks[ls.li.header] {
+			continue
+		}
+		for _, phi := range other.phis {
+			if v, ok := fr.vals[phi]; ok && phi.Comment != "" {
+				env.bindIfAbsent(phi.Comment, v, phi.Type())
+			}
+		}
 	}
 	return env
 }
